@@ -284,6 +284,7 @@ func (d *c12DB) checkFault(f *c12Fault, opt kvh.Opt) (fail *kvh.Fail) {
 	}()
 	where := fmt.Sprintf("fault %s %s at offset %d (bit %d len %d) of %s [%s]", f.Kind, f.Mode, f.Off, f.Bit, f.Len, f.File, f.Mode)
 	d.restore()
+	kvh.PoisonPools(8)
 	path := filepath.Join(d.work, f.File)
 	if f.Mode == "before-open" {
 		if err := os.WriteFile(path, d.damaged(f), 0o644); err != nil {
@@ -724,7 +725,33 @@ func init() {
 		}
 		defer d.cleanup()
 		if ft != nil {
-			return d.checkFault(ft, c.Opt)
+			if f := d.checkFault(ft, c.Opt); f != nil {
+				return f
+			}
+			// Merge walks the rotated files in Go map order, so which rewritten file holds which record differs
+			// between executions: try the pinned fault on every file, over a few rebuilt databases
+			for i := 0; i < 6; i++ {
+				d2, f := buildC12DB(&c, nil)
+				if f != nil {
+					return f
+				}
+				for rel := range d2.files {
+					if filepath.Ext(rel) != filepath.Ext(ft.File) || int64(len(d2.files[rel])) <= ft.Off {
+						continue
+					}
+					x := *ft
+					x.File = rel
+					if os.Getenv("VERIF_DEBUG") != "" {
+						fmt.Printf("DEBUG c12 replay attempt %d: %s (%d bytes) fault %+v\n", i, rel, len(d2.files[rel]), x)
+					}
+					if f := d2.checkFault(&x, c.Opt); f != nil {
+						d2.cleanup()
+						return f
+					}
+				}
+				d2.cleanup()
+			}
+			return nil
 		}
 		for _, x := range d.faults(1, false) {
 			if f := d.checkFault(x, c.Opt); f != nil {
